@@ -137,6 +137,22 @@ func cmdCheck(args []string) int {
 	var missing []string
 	for _, k := range keys {
 		fn := eng.funcs[k]
+		if fn == nil {
+			// a contract on a generic function: every instantiation is verified
+			var insts []string
+			for fk := range eng.funcs {
+				if strings.HasPrefix(fk, k+"[") {
+					insts = append(insts, fk)
+				}
+			}
+			sort.Strings(insts)
+			for _, fk := range insts {
+				vcs = append(vcs, eng.verifyFunc(eng.funcs[fk], classes))
+			}
+			if len(insts) > 0 {
+				continue
+			}
+		}
 		if fn == nil || fn.Blocks == nil {
 			missing = append(missing, k)
 			continue
